@@ -72,7 +72,11 @@ def c09Alloc (args : List String) (impl : String) : String × String :=
     let f := impl.splitOn " "
     let pred := if impl.contains "PANIC" || impl.contains "CRASH" then "false:panic-or-crash"
       else match lenS.toNat?, (fieldD f "alloc").toNat? with
-        | some len, some a => if a ≤ 64 * len + 1048576 then "true" else s!"false:allocation-not-linear alloc={a} len={len}"
+        | some len, some a =>
+          if a > 64 * len + 1048576 then s!"false:allocation-not-linear alloc={a} len={len}"
+          else match (fieldD f "n").toNat? with
+            | some n => if n ≤ len then "true" else s!"false:reports-more-bytes-consumed-than-supplied n={n} len={len}"
+            | none => "true"
         | _, _ => "false:shape"
     ("*", pred)
   | _ => ("bad-op", "n/a")
